@@ -28,6 +28,8 @@ import sys
 import time
 import traceback
 
+from vf import dump
+
 ROOT = os.path.dirname(os.path.dirname(os.path.abspath(__file__)))
 REPO = os.environ.get('VERIF_REPO', '/repo')
 PY = sys.executable
@@ -139,6 +141,12 @@ def run_shard(pid, tier, seed, shard, nshards, scale=1.0, only_case=None):
             except Exception:
                 failures = [{'what': 'harness-or-library exception escaped the check',
                              'traceback': traceback.format_exc()[-3000:]}]
+            if dump.BUILD_CHECKS[0]:
+                ctx.count('sets_also_built_in_stages_and_compared', dump.BUILD_CHECKS[0])
+                dump.BUILD_CHECKS[0] = 0
+            if dump.BUILD_PROBLEMS:
+                failures = list(failures) + dump.BUILD_PROBLEMS[:2]
+                del dump.BUILD_PROBLEMS[:]
             h = stable_hash(case)
             if mod.nontrivial(case):
                 nontrivial.add(h)
@@ -427,7 +435,7 @@ def replay(pid, path):
     ctx = Ctx(pid, 'quick', data.get('seed', 0))
     if hasattr(mod, 'setup'):
         mod.setup(ctx)
-    failures = mod.check(case, ctx)
+    failures = list(mod.check(case, ctx)) + dump.BUILD_PROBLEMS[:2]
     failures = [f for f in failures
                 if not (hasattr(mod, 'classify') and mod.classify(case, f) in known_mechanisms(pid))]
     print(json.dumps({'case': case, 'failures': failures}, indent=1, default=repr)[:6000])
